@@ -1593,7 +1593,33 @@ def np_nan_to_num(x, copy=True, nan=0.0, posinf=None, neginf=None):
     return res
 
 
-@impl("dot", "matmul")
+@impl("matmul")
+def np_matmul(a, b, out=None):
+    a = asnd(a)
+    b = asnd(b)
+    if a.ndim <= 2 and b.ndim <= 2:
+        return np_dot(a, b)
+    # stacked matrices: broadcast over the leading dimensions
+    a2 = a if a.ndim >= 2 else a.reshape(1, -1)
+    b2 = b if b.ndim >= 2 else b.reshape(-1, 1)
+    lead = np.broadcast_shapes(a2.shape[:-2], b2.shape[:-2])
+    ra = np.broadcast_to(raw(a2), lead + a2.shape[-2:])
+    rb = np.broadcast_to(raw(b2), lead + b2.shape[-2:])
+    first = None
+    out_ = np.empty(lead + (a2.shape[-2], b2.shape[-1]), dtype=object)
+    for idx in np.ndindex(lead):
+        m = np_dot(_wrap(np.array(ra[idx], dtype=object), a._dt), _wrap(np.array(rb[idx], dtype=object), b._dt))
+        first = m if first is None else first
+        out_[idx] = raw(m)
+    res = _wrap(out_, first._dt if first is not None else a._dt)
+    if a.ndim < 2:
+        res = res.reshape(lead + (b2.shape[-1],))
+    elif b.ndim < 2:
+        res = res.reshape(lead + (a2.shape[-2],))
+    return res
+
+
+@impl("dot")
 def np_dot(a, b, out=None):
     a = asnd(a)
     b = asnd(b)
